@@ -5,7 +5,9 @@ from . import c03
 LEVEL = "translation_validation"
 
 # literals and classes that need escaping in Go source; patterns shadowed by literals (terminals that own no state)
-LITS = ["'", "\\\"", "\\\\", "`", "%", "$", "{{", "}}", "/*", "*/", "//", "\\n", "a'b", "\\\\n", "%c", "%q", "\\\"\\\"", "if", "else", "=", "==", "\\'", "#{", "<%", "in", "for"]
+LITS = ["'", "\\\"", "\\\\", "`", "%", "$", "{{", "}}", "/*", "*/", "//", "\\n", "a'b", "\\\\n", "%c", "%q", "\\\"\\\"", "if", "else", "=", "==", "\\'", "#{", "<%", "in", "for",
+        # a backquote next to a quote or a backslash: no single Go literal form (raw or interpreted) can be chosen by looking at one of them only
+        "`\\\"", "\\\"`", "`\\\\", "\\\\`", "a`\\\"b", "``", "`'\\\"", "\\`"]
 PATS = ["\\x27", "\\x5C", "\\x22+", "[\\x00-\\x1F]", "\\x7F", "[\\x01-\\x08]+", "\\x0A", "\\x0D\\x0A", "\\x09+", "[\\x27\\x5C]", "\\x00E9+", "[\\x00E0-\\x00FF]", "\\x1F600", "\\x10FFFF",
         "\\x0080", "[\\x0080-\\x00A0]x", "\\xFFFFFFFF", "\\x80000000", "\\xD800", "[:ascii:]", "[^a]", ".", "\\p{Greek}", "\\s+", "if", "else|if", "=", "==?", "[a-z]+", "[0-9]+", "'[^']*'"]
 
